@@ -46,6 +46,7 @@ type Program struct {
 	Results    []string          `json:"results"`
 	HasErr     bool              `json:"haserr"`
 	Vars       []string          `json:"vars"`
+	VarTypes   [][]string        `json:"vartypes"` // [name, type expression] of the var block
 	Chans      []string          `json:"chans"`
 	EgForm     string            `json:"egform"` // "" (no errgroup) | "withctx" | "plain"
 	EgParent   string            `json:"egparent"`
@@ -566,6 +567,7 @@ func main() {
 						prog.Chans = append(prog.Chans, vs.Names[0].Name)
 					} else if len(vs.Values) == 0 && !(len(gd.Specs) == 1 && exprStr(vs.Type) == "error") {
 						prog.Vars = append(prog.Vars, vs.Names[0].Name)
+						prog.VarTypes = append(prog.VarTypes, []string{vs.Names[0].Name, exprStr(vs.Type)})
 					} else {
 						isBlock = false
 					}
@@ -629,6 +631,9 @@ func main() {
 	}
 	if prog.Params == nil {
 		prog.Params = [][]string{}
+	}
+	if prog.VarTypes == nil {
+		prog.VarTypes = [][]string{}
 	}
 	b, _ := json.Marshal(prog)
 	os.Stdout.Write(b)
